@@ -55,6 +55,11 @@ CHECKS = {
     technique="TLA+ spec Coop.tla model-checked by TLC (protocol design) + the real CooperativeStickyBalancer iterated round by round and judged by Balancer.tla (CoopSafe, Converges) (binding R/O2)",
     text="Coop.tla (members, any valid leader plan, AdjustCooperative, revoke-then-rejoin) is checked exhaustively for NoDoubleOwner, AllOwnedOnce, TwoRounds and convergence. The real balancer is then run for three rounds per generated situation, members revoking what they lost and rejoining with a bumped generation; TLC evaluates CoopSafe on every round (no partition given to a member while another member with a current-generation claim owns it) and Converges on every chain (round 2 complete, round 3 unchanged).",
     note="Round iteration applies the member-side rule in the harness (owned := adjusted plan); the end-to-end callback order is C07's subject. Known finding: with rack information a third round can be needed."),
+ "C28": dict(
+    level="model_checking", design="5/C28, 4.13",
+    technique="TLA+ murmur2/placement oracle (Partitioner.tla) evaluated by TLC (O1) + state-machine spec PartSM.tla model-checked and used to validate recorded call traces of the real partitioners (V)",
+    text="Partitioner.tla implements murmur2 over byte tuples (32-bit-safe schoolbook multiplication, xor/shift over bit vectors), Kafka's sign-masked modulo and Sarama's signed remainder via bitwise modular reduction; it is anchored on Kafka's golden vectors and evaluated on ~870 keys x 7 partition counts and on boundary hashes, compared with the default key partitioner, UniformBytes(keys), KafkaHasher and SaramaCompatHasher (equal keys twice). PartSM.tla models sticky, round-robin, least-backup and uniform-bytes as pinned-partition state machines with shrinking/growing n; InRange is model-checked, and every operation sequence to depth 5-6 is run on the real partitioners and validated event by event (a pick outside [0,n) rejects the trace).",
+    note="Random choices inside the partitioners are left nondeterministic in the spec; in-range departures from the pinning rule are counted as drift, not violations (0 on the current tree)."),
 }
 
 NOT_APPLICABLE = {
